@@ -16,6 +16,7 @@ from twisted.internet import defer as _defer
 
 LOSS_REASONS = [_neterror.ConnectionDone, _neterror.ConnectionLost, _neterror.ConnectionAborted]
 ADVANCE_TABLE = [0.0, 0.05, 0.1, 0.3, 0.5, 1.0, 1.5, 2.0, 3.0, 4.0, 5.0, 7.0, 10.0, 30.0, 100.0, 1000.0]
+LATE_TABLE = [2.0 ** -30, 0.001, 0.05, 0.3]
 TIMEOUT_TABLE = [1, 2, 4, 7, 100, 1024, 3, 50]
 BW_TABLE = [1, 10, 100, 1000, 10000, 100000, 10000000, 2.5]
 FACTOR_TABLE = [1, 2, 4, 1.5]
@@ -179,6 +180,8 @@ class World(object):
         self.in_seq = 0
         self.ids_seen = set()
         self.skipped = 0
+        self.late = self.LATE          # how late the reactor runs the next timer instants (op 'late')
+        self.max_late = self.LATE
         self.budget_hit = False
         self.too_big = False
         self.quiet = False
@@ -891,10 +894,17 @@ class World(object):
         clock = REACTOR.clock
         # a reactor always runs a delayed call a little late, never exactly on time; without that
         # LoopingCall's "time until the next interval" can round to a few ulps and fire twice
-        if t + self.LATE > clock.rightNow:
-            clock.rightNow = t + self.LATE
+        if t + self.late > clock.rightNow:
+            clock.rightNow = t + self.late
         clock.advance(0)
         return True
+
+    def op_late(self, code):
+        """from now on the reactor is this late when it gets round to its delayed calls (a busy process):
+        calls due within the lateness of the earliest one run in the same pass, in order of their times"""
+        self.late = LATE_TABLE[code % len(LATE_TABLE)]
+        self.max_late = max(self.max_late, self.late)
+        self.ev(None, "late", late=self.late)
 
     def op_advance(self, code):
         dt = ADVANCE_TABLE[code % len(ADVANCE_TABLE)] if isinstance(code, int) else float(code)
